@@ -13,6 +13,10 @@ CLAIMS = {
    note="trusts tokio's paused clock (1 tick = 1 s), TLC, and that equal abstract states behave equally (every edge is "
         "replayed from the initial state along one path)",
    technique="TLA+ reference model (LocalKV.tla) + exhaustive edge replay + TLC trace validation"),
+ "C01": dict(
+   level=("model_checking", "Gossip.tla states a complete loss-free handshake as a FUNCTION on global states built from the same operators as the actions (HandshakeFn) and C01 as two state invariants evaluated in EVERY reachable state of the chaos model (losses, duplicates, reordering, GC, size truncation with Budget = 1 entry unit): C01_Progress (for every ordered pair: newer deliverable data on either side => some copy at the two nodes strictly advances its (GC watermark, max version)) and C01_Converges (ConvRounds fair rounds of all ordered pairs reach the frontier for every advertised member; K = 0 is refuted, so the formula is not vacuous). The real code is bound by edge replay and by driver traces that append a fair phase of real complete handshakes: C01_ConvergedReal at the end of the fair phase and C01_ProgressObs on every flagged real handshake, judged on non-conforming executions and their fair continuations by the observer.", "6 (C01)"),
+   note="known finding KF-2 (budget hogging by a member the receiver has scheduled for deletion) is exempted by the formula Hogged and its witness is replayed on every run; fair rounds use one canonical pair order in the model and random orders in the driver; 2 nodes exhaustive in the quick tier (3 in thorough), 3-4 nodes in driver traces; assumes the digest and any single entry fit one datagram",
+   technique="TLA+ model checking (Gossip.tla) + edge replay + TLC trace validation + observer spec on real traces"),
  "C02": dict(
    level=("model_checking", "Gossip.tla (implementation-shaped model of the cluster, one action per Chitchat entry point) is model-checked by TLC for small constants "
           "with the ledger-exactness invariant C02_NoResurrection in every state; every transition of the quick config is replayed on real nodes with whole projected states compared; "
